@@ -182,7 +182,13 @@ class Ctx:
                     try:
                         recs.append(json.loads(json.loads(line)) if line.startswith('"') else json.loads(line))
                     except Exception:
-                        self.abort(f"unreadable corpus line from {module}: {line[:200]}")
+                        # several workers of one TLC append in 8 KiB chunks: a longer line can be torn.  A torn line loses
+                        # one case (never a verdict); more than a few means the emitter should run one worker per process
+                        torn = getattr(self, "_torn", 0) + 1
+                        self._torn = torn
+                        self.extra["torn_corpus_lines"] = torn
+                        if torn > 50 and torn > 0.02 * (len(recs) + torn):
+                            self.abort(f"too many unreadable corpus lines from {module} ({torn}): {line[:200]}")
         r["records"] = recs
         return recs
 
